@@ -298,6 +298,41 @@ theorem turn_requests_verify (P : Prims) (tx : Bytes) (a : Auth) (peer : Addr) (
   rcases hm with rfl | rfl | rfl | rfl <;>
     simp [allocateMsg, createPermissionMsg, channelBindMsg, refreshMsg, authAttrs, applyAttr, emptyDecoded]
 
+/-- **turn_requests_verify_after_any_challenge_history**: after a successful allocate followed by ANY sequence of
+401 / 438 challenges — keeping the realm, changing it, changing it back, empty realms — the client's state
+holds the key of its CURRENT realm, and every authenticated request it builds (Allocate retry, CreatePermission,
+ChannelBind, Refresh / destroy) carries USERNAME, the current REALM and NONCE, and its MESSAGE-INTEGRITY
+verifies under `MD5(USERNAME ":" REALM-in-the-message ":" password)`. -/
+theorem turn_requests_verify_after_any_challenge_history (P : Prims) (md5 : Bytes → Bytes) (user pass realm0 nonce0 : Bytes)
+    (challenges : List (Bytes × Bytes)) (tx : Bytes) (peer : Addr) (ch lt : Nat) (m : Msg) :
+    let s := challenges.foldl (fun s c => s.updateNonce md5 c.1 c.2) (AuthSt.afterAllocate md5 user pass realm0 nonce0)
+    s.username = user ∧ s.password = pass ∧ s.key = longTermKey md5 user s.realm pass ∧
+    (m ∈ [allocateMsg tx (some s.auth), createPermissionMsg tx s.auth peer, channelBindMsg tx s.auth peer ch, refreshMsg tx s.auth lt] →
+     tx.length = 12 → peer.Wf → validUtf8 s.realm = true → validUtf8 s.nonce = true → lt < 4294967296 → Sized m →
+      ∃ d, decode (authed P m s.auth) = .ok d ∧ d.realm = some s.realm ∧ d.nonce = some s.nonce ∧
+        integrityOk P (longTermKey md5 user s.realm pass) (authed P m s.auth) = true) := by
+  intro s
+  have hinv : s.username = user ∧ s.password = pass ∧ s.key = longTermKey md5 user s.realm pass := by
+    have : ∀ (cs : List (Bytes × Bytes)) (s0 : AuthSt), s0.username = user → s0.password = pass →
+        s0.key = longTermKey md5 user s0.realm pass →
+        (cs.foldl (fun s c => s.updateNonce md5 c.1 c.2) s0).username = user ∧
+        (cs.foldl (fun s c => s.updateNonce md5 c.1 c.2) s0).password = pass ∧
+        (cs.foldl (fun s c => s.updateNonce md5 c.1 c.2) s0).key =
+          longTermKey md5 user (cs.foldl (fun s c => s.updateNonce md5 c.1 c.2) s0).realm pass := by
+      intro cs
+      induction cs with
+      | nil => intro s0 h1 h2 h3; exact ⟨h1, h2, h3⟩
+      | cons c cs ih =>
+        intro s0 h1 h2 _
+        simp only [List.foldl_cons]
+        exact ih (s0.updateNonce md5 c.1 c.2) h1 h2 (by simp [AuthSt.updateNonce, h1, h2])
+    exact this challenges _ rfl rfl rfl
+  refine ⟨hinv.1, hinv.2.1, hinv.2.2, ?_⟩
+  intro hm htx hp hr hn hlt hs
+  obtain ⟨hmi, _, d, hd, _, _, _, hdr, hdn, _⟩ := turn_requests_verify P tx s.auth peer ch lt m hm htx hp hr hn hlt hs
+  refine ⟨d, hd, hdr, hdn, ?_⟩
+  rw [← hinv.2.2]; exact hmi
+
 /-- the authenticated Send indication (USERNAME, REALM, NONCE, XOR-PEER-ADDRESS, DATA) verifies under the
 client's key and decodes to its peer and payload -/
 theorem turn_send_indication_verifies (P : Prims) (tx : Bytes) (a : Auth) (peer : Addr) (data : Bytes)
